@@ -693,11 +693,20 @@ func (m *Monitor) respRefresh(r *mReq, msg *stun.Message, ok bool, code int, I i
 		m.M.EndAlloc(a, I, "refresh0")
 		return
 	}
-	if !m.M.DefinitelyAlive(a, I.Lo, I.Hi) {
-		m.K.Stats.Probe("refresh_racing_expiry")
-		// alive or not is undecided: keep the earlier deadline as lower bound
-		a.Deadline = ivl{minI(a.Deadline.Lo, I.Lo+int64(life)*1e9), I.Hi + int64(life)*1e9}
+	if a.End != nil && a.EndCause == "expiry" && a.End.Hi <= I.Hi && a.End.Hi < I.Lo+int64(life)*1e9 {
+		// The allocation expired while the request was being handled, and earlier than the
+		// granted lifetime allows: that was the old deadline. Had the refresh been applied
+		// before it, the allocation would not have expired; applied after it, there was
+		// nothing left to refresh.
+		m.v([]string{"C06", "C19"}, "refresh-success-after-expiry", nil,
+			"Refresh from %s (received %d) answered with success and LIFETIME %d s although the allocation expired and was reported deleted at %d", r.Client, I.Lo, life, a.End.Hi)
 		return
+	}
+	if !m.M.DefinitelyAlive(a, I.Lo, I.Hi) {
+		// The request raced with the expiry. Either outcome is legal - the refresh wins and
+		// is answered with success, or the expiry wins and it is not - but a success
+		// response is a promise: the allocation exists and lives for the granted lifetime.
+		m.K.Stats.Probe("refresh_racing_expiry")
 	}
 	if I.Lo > a.Deadline.Lo-1e9 {
 		m.K.Stats.Probe("refresh_in_last_second")
